@@ -265,4 +265,359 @@ theorem parseRow_render (a : Analysis) (plens : List Nat) (r : Row) (hports : a.
   rw [this]
   simp [rowView]
 
+/-! ### column widths: `_get_max_port_len` leaves room for every cell -/
+
+theorem foldl_max_ge (f : Rat → Nat) (vals : List Rat) (init : Nat) :
+    init ≤ vals.foldl (fun m v => max m (f v)) init ∧
+      ∀ v ∈ vals, f v ≤ vals.foldl (fun m v => max m (f v)) init := by
+  induction vals generalizing init with
+  | nil => simp
+  | cons x xs ih =>
+    simp only [List.foldl_cons, List.mem_cons]
+    have := ih (max init (f x))
+    refine ⟨by omega, ?_⟩
+    intro v hv
+    rcases hv with rfl | hv
+    · omega
+    · exact this.2 v hv
+
+theorem portLenOf_ge_min (vals : List Rat) : minPortLen ≤ portLenOf vals :=
+  (foldl_max_ge _ vals minPortLen).1
+
+theorem portLenOf_ge (vals : List Rat) (v : Rat) (hv : v ∈ vals) :
+    (fmtFixed v portLenDecimals).length ≤ portLenOf vals :=
+  (foldl_max_ge (fun v => (fmtFixed v portLenDecimals).length) vals minPortLen).2 v hv
+
+theorem cellOk_of_room (x : Rat) (u : Bool) (l : Nat) (h : (fmtFixed x portLenDecimals).length ≤ l) :
+    CellOk x u l := by
+  right
+  have h1 := leftLen_add_le x portLenDecimals
+  have h2 : portLenDecimals = 2 := by decide
+  have h3 : cellReserve = 1 := by decide
+  rw [h2] at h1 h
+  simp at h1
+  omega
+
+theorem cellsOk_of_forall (xs : List Rat) (us : List Bool) (ls : List Nat)
+    (h : ∀ i (h1 : i < xs.length) (_h2 : i < us.length) (h3 : i < ls.length), CellOk xs[i] us[i] ls[i]) :
+    CellsOk xs us ls := by
+  induction xs generalizing us ls with
+  | nil => simp [CellsOk]
+  | cons x xs ih =>
+    cases us with
+    | nil => simp [CellsOk]
+    | cons u us =>
+    cases ls with
+    | nil => simp [CellsOk]
+    | cons l ls =>
+      refine ⟨h 0 (by simp) (by simp) (by simp), ih us ls ?_⟩
+      intro i h1 h2 h3
+      exact h (i + 1) (by simpa using h1) (by simpa using h2) (by simpa using h3)
+
+theorem maxPortLen_length (ports : List Txt) (rows : List Row) :
+    (maxPortLen ports rows).length = ports.length := by simp [maxPortLen]
+
+theorem maxPortLen_ge_min (ports : List Txt) (rows : List Row) : ∀ l ∈ maxPortLen ports rows, minPortLen ≤ l := by
+  intro l hl
+  simp only [maxPortLen, List.mem_map] at hl
+  obtain ⟨i, _, rfl⟩ := hl
+  exact portLenOf_ge_min _
+
+/-- every cell of every kernel line fits its column with at least one decimal -/
+theorem cellsOk_maxPortLen (ports : List Txt) (rows : List Row) (r : Row) (hr : r ∈ rows)
+    (hlen : r.press.length = ports.length) : CellsOk r.press r.used (maxPortLen ports rows) := by
+  apply cellsOk_of_forall
+  intro i h1 h2 h3
+  apply cellOk_of_room
+  have hi : i < ports.length := by omega
+  simp only [maxPortLen, List.getElem_map, List.getElem_range]
+  apply portLenOf_ge
+  simp only [column, List.mem_map]
+  exact ⟨r, hr, by simp [List.getD, List.getElem?_eq_getElem h1]⟩
+
+/-! ### the port line -/
+
+/-- a port name that can be read back from the port line: no blank, bar or dash, and it fits the
+    narrowest column -/
+def NameOk (n : Txt) : Prop := (∀ c ∈ n, c ≠ 32 ∧ isSepC c = false) ∧ n.length ≤ minPortLen + headerPad
+
+theorem center_eq (w : Nat) (n : Txt) :
+    center w n = spaces ((w - n.length) / 2) ++ n ++ spaces ((w - n.length) - (w - n.length) / 2) := rfl
+
+theorem center_length (w : Nat) (n : Txt) (h : n.length ≤ w) : (center w n).length = w := by
+  rw [center_eq]; simp; omega
+
+theorem center_filter (w : Nat) (n : Txt) (hn : ∀ c ∈ n, c ≠ 32) : (center w n).filter (· != 32) = n := by
+  rw [center_eq]
+  simp only [List.filter_append]
+  have hs : ∀ k, (spaces k).filter (· != 32) = [] := by
+    intro k; simp [spaces, List.filter_eq_nil_iff]
+  rw [hs, hs]
+  simp only [List.nil_append, List.append_nil, List.filter_eq_self]
+  intro c hc; simp [hn c hc]
+
+theorem center_noSep (w : Nat) (n : Txt) (hn : ∀ c ∈ n, isSepC c = false) :
+    ∀ c ∈ center w n, (!isSepC c) = true := by
+  intro c hc
+  rw [center_eq] at hc
+  simp only [List.mem_append, spaces, List.mem_replicate] at hc
+  rcases hc with (⟨_, rfl⟩ | hc) | ⟨_, rfl⟩
+  · decide
+  · simp [hn c hc]
+  · decide
+
+theorem center_head (w : Nat) (n : Txt) (hw : 0 < w) (hn : ∀ c ∈ n, isSepC c = false) :
+    (center w n ++ rest).head? ≠ some 124 := by
+  have hne : center w n ≠ [] := by
+    intro h
+    have h1 : (center w n).length = n.length + (w - n.length) := by
+      rw [center_eq]; simp only [List.length_append, spaces_length]; omega
+    rw [h] at h1
+    simp at h1
+    omega
+  cases hc : center w n with
+  | nil => exact absurd hc hne
+  | cons c r =>
+    have := center_noSep w n hn c (by rw [hc]; simp)
+    simp only [List.cons_append, List.head?_cons, ne_eq, Option.some.injEq]
+    intro h; subst h; simp [isSepC] at this
+
+theorem parseCols_render (names : List Txt) (plens : List Nat) (fuel : Nat) (tail : Txt)
+    (hlen : plens.length = names.length) (hn : ∀ n ∈ names, NameOk n) (hl : ∀ l ∈ plens, minPortLen ≤ l)
+    (hf : names.length < fuel) :
+    parseCols fuel (portSegs names plens (sepList 124 45 names) ++ 124 :: tail) =
+      some (colsOf names plens (sepList 124 32 names), tail) := by
+  induction names generalizing plens fuel with
+  | nil =>
+    cases fuel with
+    | zero => omega
+    | succ f => simp [portSegs, parseCols, colsOf]
+  | cons n ns ih =>
+    cases plens with
+    | nil => simp at hlen
+    | cons l ls =>
+    cases fuel with
+    | zero => omega
+    | succ f =>
+    have hnok := hn n (by simp)
+    have hl4 : minPortLen ≤ l := hl l (by simp)
+    have hpad : headerPad = 2 := by decide
+    have hfit : n.length ≤ l + headerPad := by have := hnok.2; omega
+    have hsep : ∀ c ∈ n, isSepC c = false := fun c hc => (hnok.1 c hc).2
+    -- shape of the two separator lists
+    obtain ⟨g, hs45, hs32⟩ : ∃ g : Bool, sepList 124 45 (n :: ns) = (if g then 45 else 124) :: (if ns = [] then [] else sepList 124 45 ns) ∧
+        sepList 124 32 (n :: ns) = (if g then 32 else 124) :: (if ns = [] then [] else sepList 124 32 ns) := by
+      cases ns with
+      | nil => exact ⟨false, by simp [sepList], by simp [sepList]⟩
+      | cons b r => exact ⟨sameGroup n b, by simp [sepList], by simp [sepList]⟩
+    rw [hs45, hs32]
+    simp only [portSegs, colsOf, List.append_assoc, List.cons_append]
+    unfold parseCols
+    have hh := center_head (rest := (if g then 45 else 124) ::
+      (portSegs ns ls (if ns = [] then [] else sepList 124 45 ns) ++ 124 :: tail)) (l + headerPad) n (by omega) hsep
+    simp only [hh, if_false]
+    rw [span_append_stop _ _ _ (center_noSep _ n hsep) (by intro c r h; cases h; cases g <;> simp [isSepC])]
+    simp only [center_length _ n hfit, center_filter _ n (fun c hc => (hnok.1 c hc).1)]
+    have h2 : ¬ (l + headerPad < 2) := by omega
+    simp only [h2, if_false]
+    -- the remaining columns
+    have hrest : parseCols f (portSegs ns ls (if ns = [] then [] else sepList 124 45 ns) ++ 124 :: tail) =
+        some (colsOf ns ls (if ns = [] then [] else sepList 124 32 ns), tail) := by
+      by_cases hns : ns = []
+      · subst hns
+        cases f with
+        | zero => simp at hf
+        | succ f' => simp [portSegs, parseCols, colsOf]
+      · simp only [hns, if_false]
+        exact ih ls f (by simpa using hlen) (fun n' h' => hn n' (by simp [h']))
+          (fun l' h' => hl l' (by simp [h'])) (by simpa using hf)
+    rw [hrest]
+    have : l + headerPad - 2 = l := by omega
+    cases g <;> simp [this]
+
+/-! ### blank-separated tokens and the totals line -/
+
+theorem splitOn_cons (c d : Nat) (t : Txt) :
+    splitOn c (d :: t) = (match splitOn c t with
+      | [] => [[d]]
+      | h :: tl => if d = c then [] :: h :: tl else (d :: h) :: tl) := by
+  conv => lhs; rw [splitOn]
+  cases splitOn c t <;> rfl
+
+theorem splitOn_append_sep' (c : Nat) (a b : Txt) :
+    splitOn c (a ++ c :: b) = splitOn c a ++ splitOn c b := by
+  induction a with
+  | nil =>
+    simp only [List.nil_append]
+    rw [splitOn_cons]
+    cases h : splitOn c b with
+    | nil => exact absurd h (splitOn_ne_nil c b)
+    | cons x y => simp [splitOn]
+  | cons d a ih =>
+    rw [List.cons_append, splitOn_cons, splitOn_cons, ih]
+    cases h : splitOn c a with
+    | nil => exact absurd h (splitOn_ne_nil c a)
+    | cons x y => by_cases hd : d = c <;> simp [hd]
+
+theorem tokens_append_space (a b : Txt) : tokens (a ++ 32 :: b) = tokens a ++ tokens b := by
+  simp [tokens, splitOn_append_sep']
+
+theorem tokens_nil : tokens [] = [] := by simp [tokens, splitOn]
+
+theorem tokens_cons_space (t : Txt) : tokens (32 :: t) = tokens t := by
+  have := tokens_append_space [] t
+  simpa [tokens_nil] using this
+
+theorem tokens_spaces (k : Nat) : tokens (spaces k) = [] := by
+  induction k with
+  | zero => exact tokens_nil
+  | succ k ih => rw [spaces_succ, tokens_cons_space, ih]
+
+theorem tokens_spaces_append (k : Nat) (t : Txt) : tokens (spaces k ++ t) = tokens t := by
+  induction k with
+  | zero => simp [spaces]
+  | succ k ih => rw [spaces_succ, List.cons_append, tokens_cons_space, ih]
+
+theorem tokens_word (w : Txt) (hne : w ≠ []) (hs : 32 ∉ w) : tokens w = [w] := by
+  simp [tokens, splitOn_no_sep 32 w hs, hne]
+
+theorem tokens_word_spaces (w : Txt) (k : Nat) (hne : w ≠ []) (hs : 32 ∉ w) : tokens (w ++ spaces k) = [w] := by
+  cases k with
+  | zero => simpa [spaces] using tokens_word w hne hs
+  | succ k => rw [spaces_succ, tokens_append_space, tokens_word w hne hs, tokens_spaces]; simp
+
+theorem tokens_all_spaces_append (pre t : Txt) (h : ∀ c ∈ pre, c = 32) : tokens (pre ++ t) = tokens t := by
+  induction pre with
+  | nil => rfl
+  | cons c cs ih =>
+    have := h c (by simp); subst this
+    rw [List.cons_append, tokens_cons_space, ih (fun c hc => h c (by simp [hc]))]
+
+theorem tokens_bodies (bodies : List Txt) (R : Txt) :
+    tokens (bodies.flatMap (fun b => 32 :: b) ++ 32 :: R) = bodies.flatMap tokens ++ tokens R := by
+  induction bodies with
+  | nil => simp [tokens_cons_space]
+  | cons b bs ih =>
+    simp only [List.flatMap_cons, List.cons_append, List.append_assoc]
+    rw [tokens_cons_space]
+    -- what follows `b` starts with a blank
+    obtain ⟨Y, hY⟩ : ∃ Y, bs.flatMap (fun b => 32 :: b) ++ 32 :: R = 32 :: Y := by
+      cases bs with
+      | nil => exact ⟨R, rfl⟩
+      | cons b' bs' => exact ⟨b' ++ (bs'.flatMap (fun b => 32 :: b) ++ 32 :: R), by simp⟩
+    rw [hY, tokens_append_space, ← tokens_cons_space Y, ← hY, ih]
+
+theorem renderShown_noSpace (s : Shown) : 32 ∉ renderShown s := by
+  obtain ⟨neg, mant, decs⟩ := s
+  unfold renderShown
+  intro h
+  simp only [List.mem_append, List.mem_cons] at h
+  rcases h with (h | h) | h
+  · cases neg <;> simp at h
+  · have := natDigits_digits _ 32 h; simp [isDigitC] at this
+  · by_cases hd : decs = 0
+    · simp [hd] at h
+    · simp only [hd, if_false, List.mem_cons] at h
+      rcases h with h | h
+      · omega
+      · have := fracDigits_digits _ _ 32 h; simp [isDigitC] at this
+
+theorem renderShown_ne_nil (s : Shown) : renderShown s ≠ [] := by
+  obtain ⟨c, r, h, _⟩ := renderShown_head s
+  rw [h]; simp
+
+theorem parseNumFull_renderShown (s : Shown) : parseNumFull (renderShown s) = some s := by
+  unfold parseNumFull
+  have := parseNum_renderShown s [] numEnd_nil
+  rw [List.append_nil] at this
+  rw [this]
+
+/-- tokens of one cell of the totals line -/
+theorem tokens_sumBody (x : Rat) (l : Nat) :
+    tokens (cellBody x false l 32) = ((sumView x l).map renderShown).toList := by
+  unfold cellBody sumView
+  simp only [fmtFixed]
+  by_cases hz : x.num = 0
+  · simp only [hz, decide_true, Bool.not_false, Bool.and_self, if_true]
+    rw [show spaces l ++ [32, 32] = spaces l ++ spaces 2 from rfl, tokens_spaces_append, tokens_spaces]; rfl
+  · simp only [hz, decide_false, Bool.false_and, Bool.false_eq_true, if_false, cellPrec]
+    by_cases hp : l - leftLen x - cellReserve = 0
+    · simp only [hp, if_true]
+      rw [show renderShown (shown x fallbackDecimals) ++ [32] = renderShown (shown x fallbackDecimals) ++ spaces 1 from rfl,
+        tokens_word_spaces _ _ (renderShown_ne_nil _) (renderShown_noSpace _)]
+      rfl
+    · simp only [hp, if_false]
+      rw [padLeft_of_le (leftLen x) (renderShown (shown x (l - leftLen x - cellReserve))) (leftLen_le x _),
+        show renderShown (shown x (l - leftLen x - cellReserve)) ++ [32, 32] =
+          renderShown (shown x (l - leftLen x - cellReserve)) ++ spaces 2 from rfl,
+        tokens_word_spaces _ _ (renderShown_ne_nil _) (renderShown_noSpace _)]
+      rfl
+
+theorem tokens_sumBodies (xs : List Rat) (ls : List Nat) :
+    (cellBodies xs (xs.map fun _ => false) ls (xs.map fun _ => 32)).flatMap tokens =
+      ((sumViews xs ls).filterMap id).map renderShown := by
+  induction xs generalizing ls with
+  | nil => simp [cellBodies, sumViews]
+  | cons x xs ih =>
+    cases ls with
+    | nil => simp [cellBodies, sumViews]
+    | cons l ls =>
+      simp only [List.map_cons, cellBodies, sumViews, List.flatMap_cons, tokens_sumBody, ih]
+      cases sumView x l <;> simp
+
+theorem allSome_map_parseNumFull (ss : List Shown) :
+    allSome ((ss.map renderShown).map parseNumFull) = some ss := by
+  induction ss with
+  | nil => rfl
+  | cons s ss ih =>
+    simp only [List.map_cons, parseNumFull_renderShown]
+    unfold allSome
+    rw [ih]; rfl
+
+theorem getLastD_map_const {α : Type} (l : List α) (h : l ≠ []) :
+    (l.map fun _ => (32 : Nat)).getLastD 124 = 32 := by
+  induction l with
+  | nil => exact absurd rfl h
+  | cons x xs ih =>
+    cases xs with
+    | nil => rfl
+    | cons y ys =>
+      have := ih (by simp)
+      simp only [List.map_cons, List.getLastD_cons] at this ⊢
+      simpa [List.getLast?_cons_cons] using this
+
+/-- a text printed in a blank-delimited field: non-empty, no blank -/
+def WordOk (t : Txt) : Prop := t ≠ [] ∧ 32 ∉ t
+
+theorem linenoFiller_spaces : ∀ c ∈ linenoFiller, c = 32 := by decide
+
+theorem parseSummary_render (a : Analysis) (plens : List Nat) (hs : sumsOf a ≠ [])
+    (hcp : WordOk a.cpSum) (hlcd : WordOk (lcdSumRepr a)) :
+    parseSummary (summaryRow a plens) =
+      some (.summary ((sumViews (sumsOf a) plens).filterMap id) a.cpSum (lcdSumRepr a)) := by
+  have htok : tokens (summaryRow a plens) =
+      ((sumViews (sumsOf a) plens).filterMap id).map renderShown ++ [a.cpSum, lcdSumRepr a] := by
+    have hlast : ((sumsOf a).map fun _ => (32 : Nat)).getLastD 124 = 32 :=
+      getLastD_map_const _ hs
+    unfold summaryRow
+    simp only [List.append_assoc, List.cons_append]
+    rw [tokens_all_spaces_append _ _ linenoFiller_spaces, portPressure_eq, hlast]
+    simp only [List.cons_append, List.append_assoc]
+    rw [tokens_cons_space, tokens_bodies, tokens_sumBodies]
+    congr 1
+    unfold padLeft
+    simp only [List.append_assoc]
+    rw [tokens_spaces_append, tokens_append_space, tokens_word _ hcp.1 hcp.2, tokens_cons_space,
+      tokens_spaces_append, show lcdSumRepr a ++ [32, 32] = lcdSumRepr a ++ spaces 2 from rfl,
+      tokens_word_spaces _ _ hlcd.1 hlcd.2]
+    rfl
+  unfold parseSummary
+  simp only [htok]
+  have hlen : (((sumViews (sumsOf a) plens).filterMap id).map renderShown ++ [a.cpSum, lcdSumRepr a]).length - 2 =
+      (((sumViews (sumsOf a) plens).filterMap id).map renderShown).length := by simp
+  have h2 : ¬ ((((sumViews (sumsOf a) plens).filterMap id).map renderShown ++ [a.cpSum, lcdSumRepr a]).length < 2) := by
+    simp
+  simp only [h2, if_false]
+  rw [hlen, List.take_left' rfl, List.drop_left' rfl, allSome_map_parseNumFull]
+
 end OsacaVerif.Report
